@@ -370,6 +370,8 @@ func cliAutoScript(t *testing.T, r *Rng, s *Stream) {
 	}
 	if strings.HasPrefix(res, "fatal") {
 		fail("fatal", "the client died: "+res, res)
+		s.Find(Finding{Property: "C10", Signature: "client-fatal", Stream: "cliauto", What: "a reply made the client crash: " + res, Ops: append(hist, op), Observed: res})
+		s.Find(Finding{Property: "C14", Signature: "client-fatal", Stream: "cliauto", What: "the client accepted a reply it cannot use and crashed: " + res, Ops: append(hist, op), Observed: res})
 	}
 	// a NAK while renewing / rebinding must be followed by the removal of the configuration
 	for i, h := range hist {
